@@ -10,6 +10,11 @@ CLAIMED = {
         "level": "Decides the second clause (no element address outlives the critical section it was obtained in) for every body in the crate, plus 'RawList only through its mutex'; linearizability under schedules is not decided (run-time interleavings).",
         "note": "Partial: escape/typestate clauses M1-M3.",
     },
+    "C04": {
+        "technique": "must-pass-through on the MIR CFG of get_function (checked-result gates), sole-constructor scan of all aggregate sites, HIR table extraction of the per-constructor arms / arity patterns / leaf table, cross-table agreement with registrations and docs",
+        "level": "Decides the logic of the signature gate (which is ordinary table-like Rust code): every path to a TypedFunc passes all four checks; every constructor arm, arity pattern and leaf row is enumerated and compared. Does not decide TypeRegistry contents for foreign TypeIds (trusted) nor ABI correctness (C05).",
+        "note": "Close to whole-property for the gate's logic; G8 sealed-trait witnesses are in the thorough tier.",
+    },
 }
 _PENDING = "check under construction in this session; not yet claimed"
 NOT_APPLICABLE = {p: _PENDING for p in
